@@ -264,7 +264,7 @@ def check(ctx):
     ok = bool(rc) and all(unparse(c.args[0]) == "old[k]" and unparse(c.args[1]) == "v" and unparse(kwarg(c, "priority")) == "priority" for c in rc)
     ctx.ob("ALG.update.recursion", up, "nested mappings recurse with the same priority", ok)
     mg = mod.func("merge")
-    ok = bool(find("result: dict = {}", mg) or find("result = {}", mg)) and any(isinstance(l, ast.For) and unparse(l.iter) == "dicts" and bool(find("update(result, d)", l)) for l in walk_no_nested(mg)) and any(unparse(r.value) == "result" for r in returns(mg))
+    ok = bool(find("result: dict = {}", mg) or find("result = {}", mg)) and any(isinstance(l, ast.For) and unparse(l.iter) == "dicts" and bool(find("update(result, d)", l)) for l in walk_no_nested(mg)) and (all(unparse(r.value) == "result" for r in returns(mg)) and bool(returns(mg)))
     ctx.ob("ALG.merge", mg, "merge folds update(result, d) left to right into a fresh dict", ok)
 
 
